@@ -53,18 +53,25 @@ func globGen() *rapid.Generator[caseGlob] {
 			alpha = wide
 		}
 		c.Pattern = alpha.Draw(t, "pattern")
-		switch rapid.IntRange(0, 2).Draw(t, "subject_kind") {
+		// a key may itself contain '*' and '?': there they are ordinary characters
+		fill := []rune("ab/")
+		if rapid.IntRange(0, 2).Draw(t, "meta_in_subject") == 0 {
+			fill = []rune("ab/*?")
+		}
+		switch rapid.IntRange(0, 3).Draw(t, "subject_kind") {
 		case 0:
 			c.Subject = strings.NewReplacer("*", "", "?", "").Replace(alpha.Draw(t, "subject"))
+		case 3:
+			c.Subject = alpha.Draw(t, "subject_raw")
 		default:
 			// derive a subject from the pattern so that matches are frequent
 			var b strings.Builder
 			for _, r := range c.Pattern {
 				switch r {
 				case '*':
-					b.WriteString(rapid.StringOfN(rapid.SampledFrom([]rune("ab/")), 0, 3, -1).Draw(t, "star"))
+					b.WriteString(rapid.StringOfN(rapid.SampledFrom(fill), 0, 3, -1).Draw(t, "star"))
 				case '?':
-					b.WriteRune(rapid.SampledFrom([]rune("ab/")).Draw(t, "q"))
+					b.WriteRune(rapid.SampledFrom(fill).Draw(t, "q"))
 				default:
 					b.WriteRune(r)
 				}
@@ -75,11 +82,11 @@ func globGen() *rapid.Generator[caseGlob] {
 				i := rapid.IntRange(0, len(rs)-1).Draw(t, "pos")
 				switch rapid.IntRange(0, 2).Draw(t, "how") {
 				case 0:
-					rs[i] = rapid.SampledFrom([]rune("ab/")).Draw(t, "newch")
+					rs[i] = rapid.SampledFrom(fill).Draw(t, "newch")
 				case 1:
 					rs = append(rs[:i], rs[i+1:]...)
 				default:
-					rs = append(rs[:i], append([]rune{rapid.SampledFrom([]rune("ab/")).Draw(t, "ins")}, rs[i:]...)...)
+					rs = append(rs[:i], append([]rune{rapid.SampledFrom(fill).Draw(t, "ins")}, rs[i:]...)...)
 				}
 				c.Subject = string(rs)
 			}
